@@ -120,10 +120,23 @@ Theorem C15_command_intact : forall e net es1 en es2 sv sv' out,
 Proof. exact command_intact. Qed.
 Print Assumptions C15_command_intact.
 
-(* the consequence used above, for any message: a head that fits survives Message.Bytes *)
-Theorem C15_head_kept : forall m, slen (head m) <= 510 -> Str.has_prefix (head m) (msg_bytes m) = true.
+(* the consequence used above, for any message: a head that fits and whose command word is a non-empty ASCII word
+   survives Message.Bytes and the removal of a trailing UTF-8 fragment (every line the handlers emit has such a
+   command word: part of the relation proved for all handlers) *)
+Theorem C15_head_kept : forall m,
+  slen (head m) <= 510 -> cmd_ok (m_cmd m) = true -> Str.has_prefix (head m) (msg_bytes m) = true.
 Proof. exact head_kept. Qed.
 Print Assumptions C15_head_kept.
+
+(* send() removes the fragment of a UTF-8 sequence which the cut after 510 bytes may leave at the end of a line
+   (repair of finding c15:len-delivered: the JSON encoder of GET /messages replaces every byte of such a fragment by
+   U+FFFD, 3 bytes, and the client received up to 516 bytes): what is removed is a suffix of at most 3 bytes, all of
+   them non-ASCII, or nothing *)
+Theorem C15_trim_spec : forall s,
+  trim_partial_rune s = s \/
+  exists i, i < slen s /\ slen s <= i + 3 /\ trim_partial_rune s = stake i s /\ RV.IrcProofs.Trim.all_high (sdrop i s) = true.
+Proof. exact RV.IrcProofs.Trim.trim_partial_rune_trimmed. Qed.
+Print Assumptions C15_trim_spec.
 
 (* one entry, from any state in which the stored names are bounded *)
 Theorem C15_command_intact_entry : forall net e sv en sv' out,
